@@ -28,7 +28,8 @@ Proof.
     destruct (lin_fit N aeqb s (m_rng m) ds rs (octx cx)) as [s' ok]. simpl in H.
     destruct ok; simpl; exists s'; auto.
   - destruct (fit_args_ok N m ds rs cx); [|exact Hsame].
-    unfold train_shape_ok; rewrite Es. destruct (m_fitted m); simpl; unfold imp_fit, imp_partial_fit.
+    destruct (negb (train_shape_ok (m_imp m) (m_fitted m) ds cx)); [exact Hsame|].
+    rewrite Es. destruct (m_fitted m); simpl; unfold imp_fit, imp_partial_fit.
     + pose proof (lin_partial_fit_keys_ok N aeqb aeqb_spec s (m_rng m) ds rs (octx cx) Hk) as H.
       destruct (lin_partial_fit N aeqb s (m_rng m) ds rs (octx cx)) as [s' ok]. simpl in H. simpl. exists s'; auto.
     + pose proof (lin_fit_keys_ok N aeqb aeqb_spec s (m_rng m) ds rs (octx cx) Hk) as H.
